@@ -118,6 +118,7 @@ def build_contracts(mod, prop, tier, seed):
         c.log = {}
         from hwv import extract as _ex
         _ex.REFERENCE_REGS = dict(baseline.get(c.name, {}).get("__regs__", {}))
+        _ex.REFERENCE_PORTS = dict(baseline.get(c.name, {}).get("__ports__", {}))
         try:
             fn(c)
             houdini(c, c.log)
@@ -143,9 +144,15 @@ def build_contracts(mod, prop, tier, seed):
             for rb in u.rebound:
                 c.degraded.append("followed a rename: " + rb)
         probes["__regs__"] = regs
+        probes["__ports__"] = {u.prefix + n: v.size() for u in c.units for d_ in (u.inputs, u.outputs)
+                               for n, v in d_.items() if z3.is_bv(v)}
+        for u in c.units:
+            for d_ in (u.inputs, u.outputs):
+                for n, (w_, r_) in d_.narrowed.items():
+                    c.log.setdefault("narrowed_ports", []).append(f"{u.prefix}{n}: {r_} -> {w_} bits (read zero-extended)")
         record[c.name] = probes
         for name, ok in probes.items():
-            if name != "__regs__" and not ok and baseline.get(c.name, {}).get(name) is True:
+            if name not in ("__regs__", "__ports__") and not ok and baseline.get(c.name, {}).get(name) is True:
                 c.degraded.append(f"optional name {name} resolved on the reference tree but not on this one")
         ctxs.append(c)
     if os.environ.get("HWV_RECORD_PROBES") and not os.environ.get("HWV_REPO"):
